@@ -259,22 +259,31 @@ def gen_struct(rng, tier, dist, n):
             else:
                 vals.append(g_scalar(rng, rng.choice(SCALAR_KINDS))); bump("scalar")
         if compress:
-            # a run that mixes 0.0 and -0.0 is compressed to its first element
-            # (class signed-zero-run, see notes/C10.md): not generated
-            vals = [("f:00000000" if v == "f:80000000" else
-                     "d:0000000000000000" if v == "d:8000000000000000" else v) for v in vals]
+            # a run that mixes 0.0 and -0.0 is compressed to its first element (class signed-zero-run,
+            # see notes/C10.md): not generated.  A list with only one of the two zeroes of a type is
+            # inside the theorems (nozmix) and stays as it is - in particular lone -0.0 values.
+            if "f:00000000" in vals and "f:80000000" in vals:
+                z = rng.choice(["f:00000000", "f:80000000"])
+                vals = [(z if v in ("f:00000000", "f:80000000") else v) for v in vals]
+            if "d:0000000000000000" in vals and "d:8000000000000000" in vals:
+                z = rng.choice(["d:0000000000000000", "d:8000000000000000"])
+                vals = [(z if v in ("d:0000000000000000", "d:8000000000000000") else v) for v in vals]
+            if any(v in ("f:80000000", "d:8000000000000000") for v in vals):
+                bump("negative-zero-with-compression")
         bump("compress=%d" % compress)
+        if rng.random() < 0.01:
+            vals = []; bump("empty-message-or-list")
         if rng.random() < 0.25:
             addr = "/" + "/".join("".join(rng.choice("abcxyz019_#*?") for _ in range(rng.randint(1, 6)))
                                   for _ in range(rng.randint(1, 3)))
             bump("message")
             kind = "xm" if any(v.startswith("t:") for v in vals) else "pm"
-            out.append("%s %d %d %d 1 %s %s" % (kind, ll, prec, compress, ";".join(vals), addr.encode().hex()))
+            out.append("%s %d %d %d 1 %s %s" % (kind, ll, prec, compress, ";".join(vals) if vals else "-", addr.encode().hex()))
         else:
             # time tags (other than in the Spec oracle) are not in the Coq model
             kind = "xp" if any(v.startswith("t:") for v in vals) else "pp"
             bump("stream:" + kind)
-            out.append("%s %d %d %d 1 %s" % (kind, ll, prec, compress, ";".join(vals)))
+            out.append("%s %d %d %d 1 %s" % (kind, ll, prec, compress, ";".join(vals) if vals else "-"))
     return out
 
 def gen(rng, tier, dist):
@@ -378,14 +387,22 @@ def spec_check(case, impl):
     if int(d["W"]) != len(text):
         return "length: printer returned %s, the text has %d bytes" % (d["W"], len(text))
     if not vals:
-        if int(d["C"]) != 0 and f[0] in ("pp", "xp"):
+        if int(d["C"]) != 0:
             return "count: empty list printed as %r counted as %s values" % (text, d["C"])
+        if f[0] in ("pm", "xm"):
+            # a message without arguments: "<address> "; the scanner reads the address and writes nothing
+            if d.get("A") != f[6]:
+                return "address: %r scanned back as %s" % (text, d.get("A"))
+            if int(d["N"]) != 0:
+                return "count: the scanner wrote %s values for the empty message %r" % (d["N"], text)
+            if int(d["R"]) != len(text):
+                return "consume: scanner read %s of %d bytes of %r" % (d["R"], len(text), text)
         return None
-    if f[0] in ("pm", "xm") and d.get("A") != f[6]:
-        return "address: %r scanned back as %s" % (text, d.get("A"))
     c = int(d["C"])
     if c <= 0:
         return "check: the syntax checker rejects the printed text %r (count %d)" % (text, c)
+    if f[0] in ("pm", "xm") and d.get("A") != f[6]:
+        return "address: %r scanned back as %s" % (text, d.get("A"))
     if int(d["N"]) != c:
         return "count: checker says %d values, scanner wrote %s" % (c, d["N"])
     if int(d["R"]) != len(text):
@@ -407,18 +424,143 @@ def nontrivial(case, impl):
     text = bytes.fromhex(d["P"])
     return (b"\n" in text or b"\\" in text or b"-" in text or b"(" in text)
 
+def _mask_zero(v):
+    """the value with the sign of a floating-point zero dropped"""
+    if isinstance(v, tuple):
+        return tuple(_mask_zero(x) for x in v)
+    if v == "f:80000000":
+        return "f:00000000"
+    if v == "d:8000000000000000":
+        return "d:0000000000000000"
+    return v
+
+def _mixed_zero_run(vals):
+    """five or more consecutive floating-point zeroes of one type, of both signs"""
+    for zs in (("f:00000000", "f:80000000"), ("d:0000000000000000", "d:8000000000000000")):
+        j = 0
+        while j < len(vals):
+            k = j
+            while k < len(vals) and vals[k] in zs:
+                k += 1
+            if k - j >= 5 and len(set(vals[j:k])) == 2:
+                return True
+            j = max(k, j + 1)
+    return False
+
+def _delta_run_at(vals, j):
+    """vals[j:j+5] is a run the printer compresses to "b ... c": one of the types i h c, constant non-zero step"""
+    if j + 5 > len(vals):
+        return False
+    k = vals[j][:2]
+    if k not in ("i:", "h:", "c:") or any(v[:2] != k for v in vals[j:j + 5]):
+        return False
+    xs = [int(v[2:]) for v in vals[j:j + 5]]
+    d = xs[1] - xs[0]
+    return d != 0 and all(xs[i + 1] - xs[i] == d for i in range(4))
+
+def _slots_through_ellipsis_string(text):
+    """Walks the printed text value by value, counting the slots the syntax checker counts (a value 1,
+    the N of "NxV" 1, an array's bracket 1, a range's "... c" 2), up to and including the first string or
+    symbol that contains "...".  Returns (slots, rest of the text after that string) or None."""
+    import re
+    t = text.decode("latin-1")
+    p, n, slots, skip_value = 0, len(t), 0, False
+    def ws(p):
+        while p < n and t[p] in " \n\t":
+            p += 1
+        return p
+    while True:
+        p = ws(p)
+        if p >= n:
+            return None
+        c = t[p]
+        counted = 0 if skip_value else 1
+        skip_value = False
+        if c == '"':
+            content = ""
+            while True:
+                q = p + 1
+                while q < n and t[q] != '"':
+                    q += 2 if t[q] == "\\" else 1
+                if q >= n:
+                    return None
+                content += t[p + 1:q]
+                p = q + 1
+                m = re.match(r"\\\n *\"", t[p:])      # "...\<newline>    "..." : the string goes on
+                if not m:
+                    break
+                p += m.end() - 1
+            if p < n and t[p] == "S":
+                p += 1
+            slots += counted
+            if "..." in content:
+                return slots, t[p:]
+        elif c == "'":
+            p += 4 if t[p + 1] == "\\" else 3
+            slots += counted
+        elif c == "[":
+            p += 1; slots += counted
+        elif c == "]":
+            p += 1
+        elif t.startswith("...", p):
+            p += 3; slots += 2; skip_value = True
+        elif t.startswith("BLOB [", p) or t.startswith("MIDI [", p):
+            q = t.find("]", p)
+            if q < 0:
+                return None
+            p = q + 1; slots += counted
+        else:
+            m = re.match(r"[1-9][0-9]*x", t[p:])
+            if m and not skip_value:
+                p += m.end(); slots += 1          # the repetition's own slot; the value follows directly
+                skip_value = False
+                continue
+            q = p
+            while q < n and t[q] not in " \n\t]":
+                q += 1
+            word = t[p:q]
+            p = q
+            slots += counted
+            if re.fullmatch(r"\d{4}-\d\d-\d\d", word):        # a time tag: clock time and exact fraction belong to it
+                m = re.match(r"\s+\d\d:\d\d(:\d\d(\.\d+)?)?", t[p:])
+                if m:
+                    p += m.end()
+            q = ws(p)
+            if q < n and t[q] == "(":                          # the exact value of a float / a fraction
+                e = t.find(")", q)
+                if e < 0:
+                    return None
+                p = e + 1
+
 def classify(case, impl, failure):
+    """Known findings.  Each class demands the failure kind the finding produces and that the finding
+    alone explains the failure - another violation in the same case is not classified."""
+    import re
     f = case.split(" ")
     vals = f[5].split(";")
-    if f[3] != "0" and failure.startswith("values") and (
-            ("f:00000000" in vals and "f:80000000" in vals) or
-            ("d:0000000000000000" in vals and "d:8000000000000000" in vals)):
-        return "signed-zero-run"
-    if f[3] != "0":
-        # the side conditions of C10_roundtrip_any_partial (PrettyProofs/ListProofs goodc)
-        for v in vals:
-            if v[:2] in ("s:", "S:") and "2e2e2e" in v[2:] and bytes.fromhex(v[2:]).find(b"...") >= 0:
-                return "ellipsis-in-string-before-range"
+    d = fields(impl) if "=" in impl else {}
+    if f[3] != "0" and failure.startswith("values: ") and "scanned as" in failure and _mixed_zero_run(vals):
+        # signed-zero-run: a run of >= 5 zeroes of both signs; the scanned values differ from the
+        # originals in the sign of zeroes only, and rtosc_arg_vals_eq (==) holds
+        got = [] if d.get("V", "-") == "-" else d["V"].split(";")
+        if d.get("EQ") == "1" and [_mask_zero(v) for v in expand(got)] == [_mask_zero(v) for v in expand(vals)]:
+            return "signed-zero-run"
+    if f[3] != "0" and failure.startswith("check: ") and "P" in d and d["P"] != "-":
+        # ellipsis-in-string-before-range: a string or symbol containing "..." directly in front of a
+        # run printed as "b ... c"; the checker rejects exactly that range (count = -(slots before it + 1))
+        text = bytes.fromhex(d["P"])
+        for j, v in enumerate(vals):
+            if v[:2] in ("s:", "S:") and b"..." in (bytes.fromhex(v[2:]) if v[2:] != "-" else b""):
+                if not _delta_run_at(vals, j + 1):
+                    break
+                try:
+                    r = _slots_through_ellipsis_string(text)
+                except (IndexError, ValueError):
+                    r = None
+                if (r is not None and int(d["C"]) == -(r[0] + 1)
+                        and re.match(r"\s+\S+\s+\.\.\.\s", r[1])):
+                    return "ellipsis-in-string-before-range"
+                break
     return None
 
 TECHNIQUE = ("Coq proofs about a token-level model of the printer, the syntax checker and the scanner "
